@@ -353,6 +353,7 @@ impl<Endpoint: Ord + Clone> BlockHandler<Endpoint> {
             (message_size + BLOCK_OPTIONS_MAX_LENGTH) - total_payload_size;
         let max_block_size = max_total_message_size
             .checked_sub(max_non_payload_size)
+            .filter(|&size| size > 0)
             .ok_or_else(|| {
                 HandlingError::internal(format!(
             "Message too large to encode at any block size: {} exceeds {}",
